@@ -368,7 +368,7 @@ theorem family_date (is : List Item) (Y : Int) (o : Nat) (hvd : VD Y o) (text : 
   obtain ⟨hEy, _, _, _, _⟩ := hE
   simp only [exprYears, shown, onSome, onOk, hw, fy, hwy] at hEy
   obtain ⟨hY, hI⟩ := hEy
-  obtain ⟨_, hsep, hg1, hg2, hfull, hnots⟩ := hU
+  obtain ⟨_, ⟨hsep, _⟩, hg1, hg2, hfull, hnots⟩ := hU
   obtain ⟨hexp, hx, hy⟩ := side_conditions c tr hc is hY hI
     (fun it _ => by cases itemFracDigits it <;> simp [onSome, cutFrac_zero, tr])
   obtain ⟨p', hparse, hS, hT⟩ := fields_of_format c hcok tr hc hok is text hp hexp hx hsep hsafe hy hfmt
@@ -440,7 +440,7 @@ theorem family_time (is : List Item) (t : Time) (htv : TValid t) (text : List Na
   have hwdn : ((Weekday.thu.toNat : Nat) : Int) = weekdayOf (dayNumYo 1970 ((1 : Nat) : Int)) := by decide
   have hiy : IsoWeek.year 2017306 = 1970 := by decide
   have hiw : IsoWeek.week 2017306 = 1 := by decide
-  obtain ⟨_, hsep, hg1, hg2, hfull⟩ := hU
+  obtain ⟨_, ⟨hsep, _⟩, hg1, hg2, hfull⟩ := hU
   obtain ⟨_, hEl, _, _, hEf⟩ := hE
   simp only [exprLeap, shown, onSome] at hEl
   simp only [exprFrac, shown, onSome] at hEf
@@ -540,7 +540,7 @@ theorem family_naive (is : List Item) (Y : Int) (o : Nat) (hvd : VD Y o) (t : Ti
     ∃ p', Parse.parse Parsed.new text is = .ok p' ∧
       ParseFrom.resolve .naive p' = .ok (.ok (.naive ⟨dateOfYo Y o, truncTime is t⟩)) := by
   obtain ⟨fy, _⟩ := date_facts Y o hvd
-  obtain ⟨_, hsep, hg1, hg2, _⟩ := hU
+  obtain ⟨_, ⟨hsep, _⟩, hg1, hg2, _⟩ := hU
   obtain ⟨hEy, hEl, _, hEs, hEf⟩ := hE
   simp only [exprLeap, shown, onSome] at hEl
   simp only [exprFrac, shown, onSome] at hEf
@@ -551,6 +551,13 @@ theorem family_naive (is : List Item) (Y : Int) (o : Nat) (hvd : VD Y o) (t : Ti
     (fun w hw => by rw [hw] at hEy; exact hEy) hEl hEf (fun _ => rfl)
     (fun hts hs => (hEs hts hfd hft).2 hs) hfmt
   exact ⟨p', h1, by simp only [ParseFrom.resolve, h2, Parsed.RP.bind]⟩
+
+theorem wallInRange_vd (Y : Int) (o : Nat) (hvd : VD Y o) : wallInRange (dateOfYo Y o) = true := by
+  obtain ⟨fy, _, _, _, y1, y2, _⟩ := date_facts Y o hvd
+  have hMIN : MIN_YEAR = -262143 := rfl
+  have hMAX : MAX_YEAR = 262142 := rfl
+  simp only [wallInRange, fy, Bool.and_eq_true, decide_eq_true_eq]
+  omega
 
 theorem rounded_of_whole (off : Int) (h : off % 60 = 0) : roundedOffset off = off := by
   unfold roundedOffset; split <;> omega
@@ -594,7 +601,7 @@ theorem family_zoned (is : List Item) (z : Zoned) (Y : Int) (o : Nat) (hvd : VD 
     ∃ p', Parse.parse Parsed.new text is = .ok p' ∧
       ∀ v', truncate_to_precision is (.zoned z) = some v' → ParseFrom.resolve .zoned p' = .ok (.ok v') := by
   obtain ⟨fy, _⟩ := date_facts Y o hvd
-  obtain ⟨_, hsep, hg1, hg2, _⟩ := hU
+  obtain ⟨_, ⟨hsep, _⟩, hg1, hg2, _⟩ := hU
   obtain ⟨hEy, hEl, hEo, hEs, hEf⟩ := hE
   simp only [exprLeap, shown, hl, onSome] at hEl
   simp only [exprFrac, shown, hl, onSome] at hEf
@@ -640,7 +647,8 @@ theorem family_zoned (is : List Item) (z : Zoned) (Y : Int) (o : Nat) (hvd : VD 
       exact Or.inr ⟨(isSome_false_iff _).mp hoI, (isSome_true_iff _).mp htI, by rw [← hoff', if_neg ho]⟩
   have heast : Zoned.east_opt off' = some off' := by
     unfold Zoned.east_opt; rw [if_pos hr1]
-  simp only [truncate_to_precision, hfd, hft, Bool.and_self, if_true, hl, hoff'] at hv'
+  have hwall : wallInRange (dateOfYo Y o) = true := wallInRange_vd Y o hvd
+  simp only [truncate_to_precision, hfd, hft, Bool.and_self, if_true, hl, hoff', hwall] at hv'
   simp only [ParseFrom.resolve, to_datetime_of p' off' _ hoffsel h2 heast]
   cases hfl : Zoned.from_local_datetime off' ⟨dateOfYo Y o, truncTime is t⟩ with
   | panic => rw [hfl] at hv'; cases hv'
